@@ -114,7 +114,7 @@ Section Find.
   Lemma has_walk_find : forall fuel st, has_walk H test fuel st = find_walk H test fuel st.
   Proof.
     induction fuel as [|f IH]; intros st; destruct st as [|u0 rest]; cbn [has_walk find_walk]; auto.
-    destruct (test u0); auto.
+    all: try (destruct (test u0); auto).
   Qed.
 End Find.
 
@@ -196,10 +196,13 @@ Section Get.
     destruct (get_complete _ _ _ _ Hw) as (Hst & Hcl); [intros w c []|].
     split; auto. intros u. split.
     - intros Hu. destruct (Hs u Hu) as (_ & v & [<-|[]] & Hsub). exact Hsub.
-    - intros Hsub. induction Hsub as [t|u b t Hb Hsub IH].
-      + destruct (Hst t) as [Ht|[]]; auto. now left.
-      + specialize (IH Hw Hs Hst Hcl).
-        destruct (Hcl b u) as [Hu|[]]; auto. now apply in_subclasses.
+    - intros Hsub.
+      assert (HT : In T l) by (destruct (Hst T) as [Ht|[]]; auto; now left).
+      assert (Hcl' : forall w c, In w l -> In c (subclasses H w) -> In c l).
+      { intros w c Hwl Hc. destruct (Hcl w c) as [Hu|[]]; auto. }
+      clear Hw Hs Hst Hcl.
+      induction Hsub as [t|u b t Hb Hsub IH]; auto.
+      apply (Hcl' b u); auto. now apply in_subclasses.
   Qed.
 End Get.
 
